@@ -5,6 +5,8 @@ import ast
 import itertools
 import json
 import random
+import re
+import time
 from collections import Counter
 from pathlib import Path
 
@@ -344,6 +346,403 @@ def sum_cases(mods):
     return res
 
 
+# ---- simplify_constrained_range ---------------------------------------------------------------
+# a case: (form, args, ifs) -- form in list/set/gen; args: list of int | "n" | "m";
+# ifs: list of `if` clauses, each a (possibly nested) and-tree: a leaf is a condition
+#   ("cmp", optext, c, flipped) | ("other", text), a node is ("and", [trees]).
+ROP = {">": "RGt", "<": "RLt", ">=": "RGe", "<=": "RLe", "==": "REq", "!=": "RNe"}
+FOLD_OPS = [">", "<", ">=", "<=", "=="]
+SYMS = {"n": 0, "m": 1}
+SYM_RE = re.compile(r"\b[nm]\b")
+OTHER_TXT = ["p(x)", "x % 2 == 0", "x > 2.5", "x > True", "x > n", "y > 1", "x > 1 or x < 0", "not x < 3",
+             "0 < x < 4", "x < 'a'"]
+OTHER_TOTAL = OTHER_TXT[:-1]   # "x < 'a'" raises for every x: used as a single filter only
+RBOX = range(-2, 7)
+CBOX = range(-2, 8)
+
+
+def rc_leaf_text(c) -> str:
+    if c[0] == "cmp":
+        return f"{c[2]} {c[1]} x" if c[3] else f"x {c[1]} {c[2]}"
+    return c[1]
+
+
+def rc_tree_text(t, top=True) -> str:
+    if t[0] == "and":
+        s = " and ".join(rc_tree_text(v, False) for v in t[1])
+        return s if top else f"({s})"
+    return rc_leaf_text(t) if t[0] == "cmp" or top else f"({rc_leaf_text(t)})"
+
+
+def rc_flat(t) -> list:
+    return [l for v in t[1] for l in rc_flat(v)] if t[0] == "and" else [t]
+
+
+def rc_source(case) -> str:
+    form, args, ifs = case
+    body = f"x for x in range({', '.join(str(a) for a in args)})" + "".join(f" if {rc_tree_text(t)}" for t in ifs)
+    return {"list": f"[{body}]", "set": f"{{{body}}}", "gen": f"({body})"}[form] + "\n"
+
+
+def rc_conds(case) -> list:
+    return [l for t in case[2] for l in rc_flat(t)]
+
+
+def rcond_coq(c) -> str:
+    if c[0] == "cmp":
+        return f"(RCmp {ROP[c[1]]} {gz(c[2])} {gbool(c[3])})"
+    return f"(ROther {OTHER_TXT.index(c[1])})"
+
+
+def rarg_coq(a) -> str:
+    return f"(ASym {SYMS[a]})" if isinstance(a, str) else f"(AInt {gz(a)})"
+
+
+def rverdict_coq(v) -> str:
+    if v[0] == "fold":
+        return f"(VFold {glist(v[1], rarg_coq)} {glist(v[2], gbool)})"
+    return {"none": "VNone", "empty": "VEmpty"}[v[0]]
+
+
+def _flat_ifs(ifs):
+    out = []
+    for c in ifs:
+        if isinstance(c, ast.BoolOp) and isinstance(c.op, ast.And):
+            out += _flat_ifs(c.values)
+        else:
+            out.append(c)
+    return out
+
+
+def impl_range(mods, source):
+    """Run the real generator and read what it yields: ("none",) | ("empty",) | ("fold", new range args,
+    per flattened condition whether it was replaced by True) | ("weird", why)."""
+    core, sm = mods["core"], mods["symbolic_math"]
+    with common.quiet():
+        root = core.parse(source)
+        node = root.body[0].value
+        comp = node.generators[0]
+        flat = _flat_ifs(comp.ifs)
+        red, new_args, empty, extra = [False] * len(flat), None, False, 0
+        for item in sm.simplify_constrained_range._fix_func(source):
+            tgt, repl = item[0], item[1]
+            if tgt is node:
+                g = repl.generators[0]
+                if not (type(repl) is type(node) and isinstance(g.iter, ast.Tuple) and not g.iter.elts and not g.ifs
+                        and g.target is comp.target and repl.elt is node.elt and len(repl.generators) == 1):
+                    return ("weird", "empty replacement of unexpected shape: " + ast.dump(repl))
+                empty = True
+            elif tgt is comp.iter:
+                if new_args is not None or not (isinstance(repl, ast.Call) and isinstance(repl.func, ast.Name)
+                                                and repl.func.id == "range" and not repl.keywords):
+                    return ("weird", "range replacement of unexpected shape")
+                new_args = []
+                for a in repl.args:
+                    if isinstance(a, ast.Constant) and type(a.value) is int:
+                        new_args.append(a.value)
+                    elif isinstance(a, ast.Name) and any(a is o for o in comp.iter.args):
+                        new_args.append(a.id)
+                    else:
+                        return ("weird", "range argument " + ast.dump(a))
+            else:
+                idx = [i for i, c in enumerate(flat) if c is tgt]
+                if not idx or not (isinstance(repl, ast.Constant) and repl.value is True) or red[idx[0]]:
+                    return ("weird", "unexpected yield " + ast.dump(tgt) + " => " + ast.dump(repl))
+                red[idx[0]] = True
+            if empty and (new_args is not None or any(red)):
+                extra += 1
+    if empty:
+        return ("empty",) if not extra else ("weird", "empty verdict followed by further rewrites")
+    if new_args is None and not any(red):
+        return ("none",)
+    if new_args is None or not any(red):
+        return ("weird", "conditions and range not rewritten together")
+    return ("fold", new_args, red)
+
+
+def _pfun(x):
+    return x % 3 != 1
+
+
+def comp_values(text: str, n, m=2):
+    """value of the comprehension (list / sorted set / list(generator)) or the exception type"""
+    try:   # (a text that does not parse is an exception value too, so it differs from every proper value)
+        v = eval(text, {"n": n, "m": m, "p": _pfun, "y": 3})
+        return ("set", sorted(v)) if isinstance(v, (set, frozenset)) else ("list", list(v))
+    except Exception as e:  # noqa
+        return ("exc", type(e).__name__)
+
+
+def range_property_fails(source: str, new: str) -> str | None:
+    """the property's oracle: same elements in the same order for every value of the symbolic bounds"""
+    if new == source:
+        return None
+    symbolic = SYM_RE.search(source) is not None          # literal bounds: one evaluation is all there is
+    for n in (range(-3, 9) if symbolic else (3,)):
+        b, a = comp_values(source, n), comp_values(new, n)
+        if b != a:
+            return f"n={n}: before {b}, after {a}"
+    return None
+
+
+def range_arg_forms():
+    forms = [[e] for e in RBOX] + [[s, e] for s in RBOX for e in RBOX]
+    forms += [[s, e, st] for s in RBOX for e in RBOX for st in (1, 2, 3, -1)]
+    forms += [["n"], ["n", 4], [1, "n"], [-1, "n"], ["m", "n"], ["n", 5, 2], [0, "n", 2], [1, "n", 3], [0, 5, "n"],
+              ["n", 6, 1], [0, 6, 0], [2, "n", -1], [1, 2, 3, 4], []]
+    return forms
+
+
+def range_cases(tier, rnd):
+    """exhaustive: every range form x every single constant filter (list form); pairs of filters: a
+    deterministic 1-in-K shard (quick) / all of the 2-argument forms + shard of the rest (thorough);
+    seeded random: 1-4 filters with opaque conditions, nesting, several ifs, set/generator forms."""
+    singles = [("cmp", op, c, fl) for op in FOLD_OPS for c in CBOX for fl in (False, True)]
+    forms = range_arg_forms()
+    cases = []
+    j = 0
+    for args in forms:
+        # quick: the 3-literal-argument forms are strided 1-in-3 (seed independent); everything else is complete
+        strided = tier == "quick" and len(args) == 3 and all(isinstance(a, int) for a in args)
+        for f in singles + [("cmp", "!=", 0, False), ("cmp", "!=", 3, True)] + [("other", t) for t in OTHER_TXT]:
+            j += 1
+            if not strided or j % 3 == 0:
+                cases.append(("list", args, [f]))
+    n_single = len(cases)
+    # pairs: index-strided shard (seed independent) / all pairs for the 2-argument forms in the thorough tier
+    K = 499 if tier == "quick" else 29
+    k = 0
+    for args in forms:
+        two_arg_full = tier != "quick" and len(args) == 2 and all(isinstance(a, int) and 0 <= a <= 4 for a in args)
+        for f in singles:
+            for g in singles:
+                k += 1
+                if two_arg_full or k % K == 0:
+                    joined = [("and", [f, g])] if k % 2 else [f, g]
+                    cases.append((("list", "set", "gen")[k % 3], args, joined))
+    n_pairs = len(cases) - n_single
+    leaves = singles + [("other", t) for t in OTHER_TOTAL] + [("cmp", "!=", 2, False)]
+    for _ in range(1200 if tier == "quick" else 30000):
+        args = rnd.choice(forms) if rnd.random() < 0.8 else [rnd.choice(["n", -1, 0, 2]), rnd.choice(["n", 5, 6, 9]),
+                                                            rnd.choice([1, 1, 2, 3, 4])]
+        def tree(d=0):
+            if d < 2 and rnd.random() < 0.35:
+                return ("and", [tree(d + 1) for _ in range(rnd.randint(2, 3))])
+            return rnd.choice(leaves) if rnd.random() < 0.8 else ("cmp", rnd.choice(FOLD_OPS), rnd.randint(-3, 12),
+                                                                  rnd.random() < 0.3)
+        cases.append((rnd.choice(["list", "set", "gen"]), args, [tree() for _ in range(rnd.randint(1, 3))]))
+    return cases, n_single, n_pairs
+
+
+def rc_apply(case, res):
+    """source text of the case after the rewrite the rule yielded (new range arguments, redundant filters -> True)"""
+    form, args, ifs = case
+    if res[0] == "empty":
+        return {"list": "[x for x in ()]", "set": "{x for x in ()}", "gen": "(x for x in ())"}[form] + "\n"
+    it = iter(res[2])
+
+    def sub(t):
+        if t[0] == "and":
+            return ("and", [sub(v) for v in t[1]])
+        return ("other", "True") if next(it) else t
+    return rc_source((form, res[1], [sub(t) for t in ifs]))
+
+
+# inputs the pre-repair rule got wrong (or crashed on); they must pass from now on (fixed: F17-4..F17-9)
+RANGE_WITNESSES = [
+    ("F17-4", "[x for x in range(m, n) if x > 5]\n"), ("F17-4", "[x for x in range(0, n) if x < 5]\n"),
+    ("F17-4", "[x for x in range(-1, 3) if x < 0]\n"), ("F17-4", "[x for x in range(-2, 6) if x >= 1]\n"),
+    ("F17-5", "[x for x in range(0, 5) if x <= 5]\n"), ("F17-5", "[x for x in range(1, 4) if 4 >= x]\n"),
+    ("F17-6", "[x for x in range(0, 10, 2) if x > 2]\n"), ("F17-6", "[x for x in range(0, 10, 2) if x < 5]\n"),
+    ("F17-6", "[x for x in range(1, 10, 3) if x == 5]\n"), ("F17-6", "[x for x in range(0, 10, n) if x < 5]\n"),
+    ("F17-7", "[x for x in range(10, 0, -1) if x > 2]\n"), ("F17-7", "[x for x in range(0, 10, -1) if x > 2]\n"),
+    ("F17-8", "[x for x in range(0, 10) if x > 2.5]\n"), ("F17-8", "[x for x in range(0, 10) if x > True]\n"),
+    ("F17-9", "[x for x in range(0, 10) if x > 2 and x > 5]\n"), ("F17-9", "[x for x in range(0, 10) if x > 5 and x > 2]\n"),
+]
+
+
+_RANGE_MODS = None
+
+
+def _range_eval(jobs):
+    """worker: real rule on each case (yields), the property oracle on what it yielded and, where asked,
+    on the rule's text result"""
+    mods = _RANGE_MODS
+    rule = mods["symbolic_math"].simplify_constrained_range
+    out = []
+    for _, case, do_text in jobs:
+        source = rc_source(case)
+        fails = []
+        try:
+            res = impl_range(mods, source)
+        except Exception as e:  # noqa
+            res = ("weird", f"crash {type(e).__name__}: {e}")
+        did_text = 0
+        if res[0] in ("fold", "empty"):
+            new = rc_apply(case, res)
+            pr = range_property_fails(source, new)
+            if pr:
+                fails.append(("simplify_constrained_range", {"source": source, "output": new, "problem": pr}))
+            if do_text:
+                did_text = 1
+                with common.quiet():
+                    try:
+                        new = rule(source)
+                    except Exception as e:  # noqa
+                        new = f"<crash {type(e).__name__}: {e}>"
+                pr = range_property_fails(source, new)
+                if pr:
+                    fails.append(("simplify_constrained_range", {"source": source, "output": new, "problem": pr}))
+        elif res[0] == "weird":
+            fails.append(("simplify_constrained_range", {"source": source, "output": None, "problem": res[1]}))
+        out.append((case, res, source, fails, did_text))
+    return out
+
+
+def _fmt_eval(srcs):
+    """worker: the comprehension inside a function, through format_code; f(n, ..) before/after"""
+    fmt = _RANGE_MODS["main"].format_code
+    fails = []
+    for src in srcs:
+        prog = "def f(n, m, p, y):\n    return " + src
+        with common.quiet():
+            try:
+                new = fmt(prog, preserve=frozenset({"f"}))
+            except Exception as e:  # noqa
+                fails.append(("main.format_code", {"source": prog, "output": None,
+                                                   "problem": f"crash {type(e).__name__}: {e}"}))
+                continue
+        pr = program_property_fails(prog, new)
+        if pr:
+            fails.append(("main.format_code", {"source": prog, "output": new, "problem": pr}))
+    return fails
+
+
+def check_range(run, mods, rnd, wd, hist, distinct):
+    """correspondence + oracles for simplify_constrained_range; returns (files, shards, failures, stats)"""
+    rule = mods["symbolic_math"].simplify_constrained_range
+    cases, n_single, n_pairs = range_cases(run.tier, rnd)
+    items, failures = [], []
+    # the real rule + the oracles run in forked workers (the parent imported pyrefact already)
+    global _RANGE_MODS
+    _RANGE_MODS = mods
+    step_t = 9 if run.tier == "quick" else 6
+    jobs = [(i, case, i % step_t == run.seed % step_t) for i, case in enumerate(cases)]
+    nw = 4 if run.tier == "quick" else 8
+    size = max(200, len(jobs) // (nw * 8))
+    import multiprocessing
+    with multiprocessing.get_context("fork").Pool(nw) as pool:
+        parts = pool.map(_range_eval, [jobs[k:k + size] for k in range(0, len(jobs), size)])
+    n_text = 0
+    for part in parts:
+        for case, res, source, fails, did_text in part:
+            items.append((case, res, source))
+            hist["range:" + res[0]] += 1
+            if res[0] in ("fold", "empty"):
+                distinct.add(source)
+            failures += fails
+            n_text += did_text
+    files, shards = [], []
+    SH = 500
+    for k in range(0, len(items), SH):
+        shard = items[k:k + SH]
+        body = ";\n ".join(f"({glist(c[1], rarg_coq)}, {glist(rc_conds(c), rcond_coq)}, "
+                           f"{rverdict_coq(r) if r[0] != 'weird' else 'VFold [] []'})" for (c, r, _) in shard)
+        p = wd / f"range_{k // SH}.v"
+        p.write_text("From Coq Require Import List ZArith.\nImport ListNotations.\nOpen Scope Z_scope.\n"
+                     "Require Import Pyrefact.Base Pyrefact.RangeModel.\n"
+                     f"Definition cases : list (list arg * list rcond * verdict) := [\n {body}\n].\n"
+                     "Eval vm_compute in (bad_idx range_case_ok cases).\n")
+        files.append(p); shards.append([("range",) + it for it in shard])
+
+    # reference semantics vs CPython: list(range(..)) and list(<comprehension>)
+    zc = [(a, b, st, list(range(a, b, st))) for a in range(-3, 8) for b in range(-3, 8) for st in (1, 2, 3, 5, -1, -2, -3)]
+    zc += [(rnd.randint(-40, 40), rnd.randint(-40, 40), rnd.choice([1, 2, 3, 4, 7, 11, -1, -2, -5])) for _ in range(150)]
+    zc = [(c[0], c[1], c[2], list(range(c[0], c[1], c[2]))) for c in zc]
+    for k in range(0, len(zc), SH):
+        shard = zc[k:k + SH]
+        body = ";\n ".join(f"({gz(a)}, {gz(b)}, {gz(st)}, {glist(l, gz)})" for (a, b, st, l) in shard)
+        p = wd / f"zrange_{k // SH}.v"
+        p.write_text("From Coq Require Import List ZArith.\nImport ListNotations.\nOpen Scope Z_scope.\n"
+                     "Require Import Pyrefact.Base Pyrefact.RangeModel.\n"
+                     f"Definition cases : list (Z * Z * Z * list Z) := [\n {body}\n].\n"
+                     "Eval vm_compute in (bad_idx zrange_case_ok cases).\n")
+        files.append(p); shards.append([("zrange",) + it for it in shard])
+    sem, seen = [], set()
+    pure = [it for it in items if all(c[0] == "cmp" for c in rc_conds(it[0])) and 1 <= len(it[0][1]) <= 3
+            and not (len(it[0][1]) == 3 and it[0][1][2] in (0, "n", "m"))]
+    for it in pure[::17] + pure[-300:]:
+        case = it[0]
+        src = rc_source(("list", case[1], case[2]))
+        for n in (-1, 3, 6):
+            if (src, n) in seen or ("n" not in case[1] and "m" not in case[1] and n != 3):
+                continue
+            seen.add((src, n))
+            v = comp_values(src, n, m=n)
+            if v[0] == "list":
+                sem.append((case, n, v[1]))
+    for k in range(0, len(sem), SH):
+        shard = sem[k:k + SH]
+        body = ";\n ".join(f"({glist(c[1], rarg_coq)}, {glist(rc_conds(c), rcond_coq)}, {gz(n)}, {glist(l, gz)})"
+                           for (c, n, l) in shard)
+        p = wd / f"rsem_{k // SH}.v"
+        p.write_text("From Coq Require Import List ZArith.\nImport ListNotations.\nOpen Scope Z_scope.\n"
+                     "Require Import Pyrefact.Base Pyrefact.RangeModel.\n"
+                     f"Definition cases : list (list arg * list rcond * Z * list Z) := [\n {body}\n].\n"
+                     "Eval vm_compute in (bad_idx sem_case_ok cases).\n")
+        files.append(p); shards.append([("range-sem",) + it for it in shard])
+
+    # the text result of the real rule (shard) and of format_code (smaller shard), plus the fixed witnesses
+    fired = [it for it in items if it[1][0] in ("fold", "empty")]
+    n_fmt = 0
+    e2e = [it[2] for it in fired[run.seed % 97::(len(fired) // (90 if run.tier == "quick" else 1000) or 1)]]
+    e2e += [w for _, w in RANGE_WITNESSES]
+    with multiprocessing.get_context("fork").Pool(nw) as pool:
+        for part in pool.map(_fmt_eval, [e2e[k::nw * 2] for k in range(nw * 2)]):
+            failures += part
+    n_fmt = len(e2e)
+    for fid, w in RANGE_WITNESSES:
+        with common.quiet():
+            try:
+                new = rule(w)
+            except Exception as e:  # noqa
+                new = f"<crash {type(e).__name__}: {e}>"
+        pr = range_property_fails(w, new)
+        if pr:
+            failures.append(("simplify_constrained_range", {"source": w, "output": new, "problem": f"[{fid} witness] {pr}"}))
+    stats = {"cases": len(items), "single_filter_exhaustive": n_single, "pair_shard": n_pairs, "fired": len(fired),
+             "zrange_cases": len(zc), "sem_cases": len(sem), "text_oracle": n_text, "format_code_oracle": n_fmt,
+             "samples": [items[7][2], items[n_single + 5][2], items[-1][2]]}
+    return files, shards, failures, stats
+
+
+def program_property_fails(prog: str, new: str) -> str | None:
+    """f(n, m, p, y) before/after format_code: same value (same order) for every n in the box"""
+    if new == prog:
+        return None
+    try:
+        envs = []
+        for text in (prog, new):
+            env = {}
+            exec(compile(text, "<prog>", "exec"), env)
+            envs.append(env)
+    except Exception as e:  # noqa
+        return f"output does not run: {type(e).__name__}: {e}"
+    if "f" not in envs[1]:
+        return "f disappeared"
+    for n in range(-3, 9):
+        outs = []
+        for env in envs:
+            try:
+                v = env["f"](n, 2, _pfun, 3)
+                outs.append(("set", sorted(v)) if isinstance(v, (set, frozenset)) else ("list", list(v)))
+            except Exception as e:  # noqa
+                outs.append(("exc", type(e).__name__))
+        if outs[0] != outs[1]:
+            return f"n={n}: before {outs[0]}, after {outs[1]}"
+    return None
+
+
 # ---------------------------------------------------------------------------------------------
 
 
@@ -429,6 +828,12 @@ def check(run: common.Run):
     shards.append([("sum", s) for s in sums if isinstance(s["value"], (int, float)) and float(2 * s["value"]).is_integer()])
     sum_unrepresentable = [s for s in sums if not (isinstance(s["value"], (int, float)) and float(2 * s["value"]).is_integer())]
 
+    # ---- simplify_constrained_range
+    t_range = time.time()
+    rfiles, rshards, rfailures, rstats = check_range(run, mods, rnd, wd, hist, distinct)
+    rstats["python_wall_s"] = round(time.time() - t_range, 1)
+    files += rfiles; shards += rshards
+
     results = common.run_case_files(files)
     disagreements = []
     for p, shard in zip(files, shards):
@@ -461,6 +866,7 @@ def check(run: common.Run):
             if pr:
                 failures.append(("remove_redundant_boolop_values", {"source": src, "problem": pr}))
     sum_viol = [s for s in sums if s["value"] != s["python"]]
+    failures += rfailures
 
     # ---- known findings
     from . import findings
@@ -499,28 +905,44 @@ def check(run: common.Run):
                       bool(failures))
 
     run.coverage.update(
-        evaluations=len(items) + len(nitems) + len(ritems) + len(sums),
+        evaluations=len(items) + len(nitems) + len(ritems) + len(sums) + rstats["cases"] + rstats["zrange_cases"]
+        + rstats["sem_cases"],
         distinct_nontrivial=len(distinct),
         rule=("bound table: ALL ordered pairs of comparisons of x with constants {0,1,2}, 6 operators, both "
               "literal sides, x and/or (exhaustive); triples (sampled in quick, exhaustive in thorough); nested "
               "same-operator forms; seeded random mixed formulas. negate: all single/pair conditions over 10 "
               "operators + random trees. redundant: ALL truthy/falsy/unknown masks up to length "
-              f"{maxlen} x and/or (exhaustive). sums: all sum(range(a,b)), a,b in [-4,6]. Non-trivial = the rule "
+              f"{maxlen} x and/or (exhaustive). sums: all sum(range(a,b)), a,b in [-4,6]. constrained range: "
+              "range forms = 1/2/3 literal arguments with start, stop in [-2,6], step in {1,2,3,-1}, + symbolic "
+              "bounds n/m, symbolic/zero step, 0 and 4 arguments; x every single filter `x op c` / `c op x`, "
+              "op in > < >= <= == (and != / opaque / non-int-constant filters), c in [-2,7] (exhaustive in "
+              "thorough; in quick the 3-literal-argument forms are strided 1-in-3); pairs of filters under "
+              "`and` / two `if`s in list/set/generator form (strided shard; thorough: all pairs for the "
+              "2-argument forms); seeded random 1-3 `if`s of nested and-trees. Non-trivial = the rule "
               "yields a rewrite; distinct by source text."),
         samples=[items[0][3], items[n_pairs + 3][3], items[-1][3], c_text(nitems[-1][0]), ritems[-1][3],
-                 sums[5]["source"]],
+                 sums[5]["source"]] + rstats.pop("samples"),
         exhaustive=False, exhaustive_pairs=n_pairs, histogram=dict(hist),
         correspondence_disagreements=len(disagreements), property_oracle_failures=len(failures),
-        sum_cases_outside_model=len(sum_unrepresentable),
-        unmodelled=["symbolic_math.simplify_constrained_range", "symbolic_math.simplify_boolean_expressions_symmath "
-                    "(sympy)", "symbolic_math._integrate_over (sympy)"],
+        sum_cases_outside_model=len(sum_unrepresentable), constrained_range=rstats,
+        unmodelled=["symbolic_math.simplify_boolean_expressions_symmath (sympy)", "symbolic_math._integrate_over (sympy)",
+                    "simplify_constrained_range: the template walk that selects comprehensions (single generator, "
+                    "Name target, range call without keywords) and the rewrite machinery that applies the yields "
+                    "(C10) are exercised by the correspondence / text oracle, not modelled"],
         trusted_base=common.TRUSTED_BASE_COMMON + [
             "operand/cond term <-> Python text printers and AST readers in harness/c17.py",
             "structural equality of operand terms stands for equality of ast.unparse text",
-            "integer semantics cmp_sem / cmpop_sem are definitions (validated by the before/after evaluation sweep)"],
+            "integer semantics cmp_sem / cmpop_sem are definitions (validated by the before/after evaluation sweep)",
+            "RangeModel.zrange / comp_sem (meaning of list(range(..)) and of a filtered comprehension) are "
+            "definitions, validated against CPython on every run (zrange_case_ok, sem_case_ok)",
+            "range case <-> source text printer (rc_source) and the reader of the rule's yields (impl_range)"],
     )
     run.assumptions += ["float constants and non-integer variables are outside every theorem",
-                        "sympy-based rules and simplify_constrained_range are not modelled (listed under unmodelled)"]
+                        "sympy-based rules are not modelled (listed under unmodelled)",
+                        "constrained range: `range` is the builtin, non-literal bounds evaluate to ints without side "
+                        "effects, the remaining filters are total and side-effect free (folding changes how often "
+                        "they run -- the repository's own examples do that), conditions of several `if`s / `and` "
+                        "mean their conjunction"]
 
 
 def replay(path: str) -> int:
@@ -530,4 +952,19 @@ def replay(path: str) -> int:
                      indent=1))
     if data.get("kind") == "property-oracle" and data.get("site") == "simplify_boolean_expressions":
         print("now:", property_fails(mods, data["source"], mods["symbolic_math"].simplify_boolean_expressions))
+    if data.get("kind") == "property-oracle" and data.get("site") == "simplify_constrained_range":
+        with common.quiet():
+            try:
+                new = mods["symbolic_math"].simplify_constrained_range(data["source"])
+            except Exception as e:  # noqa
+                new = f"<crash {type(e).__name__}: {e}>"
+        print("now:", repr(new), "->", range_property_fails(data["source"], new) or "same elements in the same order")
+        try:
+            print("yields:", impl_range(mods, data["source"]))
+        except Exception as e:  # noqa
+            print("yields: crash", type(e).__name__, e)
+    if data.get("kind") == "property-oracle" and data.get("site") == "main.format_code":
+        with common.quiet():
+            new = mods["main"].format_code(data["source"], preserve=frozenset({"f"}))
+        print("now:", repr(new), "->", program_property_fails(data["source"], new) or "same values")
     return 0
